@@ -32,6 +32,12 @@ pub fn run() -> i32 {
                     s.execute_sparql(sp.trim())
                 } else if let Some(cy) = q.strip_prefix("cypher:") {
                     s.execute_cypher(cy.trim())
+                } else if let Some(cy) = q.strip_prefix("gremlin:") {
+                    s.execute_gremlin(cy.trim())
+                } else if let Some(cy) = q.strip_prefix("graphql:") {
+                    s.execute_graphql(cy.trim())
+                } else if let Some(cy) = q.strip_prefix("params:") {
+                    s.execute_with_params(cy.trim(), std::collections::HashMap::new())
                 } else {
                     s.execute(q)
                 };
